@@ -116,13 +116,18 @@ func TestC07(t *testing.T) {
 	run.Finish(t)
 }
 
+// checkTimeout: long enough that a probe the backend answers at once (or after the 60 ms of
+// slow-ok) loses against it only on a badly overloaded machine; such a loss is recognised below
+// (the driving call then lasted at least this long) and ends the history as inconclusive.
+const checkTimeout = 600 * time.Millisecond
+
 func oneHistory(run *rep.Run, rng *rand.Rand, h, nsteps int) {
 	I := []time.Duration{1 * time.Second, 2 * time.Second, 5 * time.Second, 10 * time.Second, 30 * time.Second}[rng.Intn(5)]
 	b := backend.NewStd(fmt.Sprintf("h%d", h), []string{"m1"}, nil)
 	defer b.Close()
 	bornAt := time.Now()
 	w, err := world.Start(world.Spec{Engine: "sherpa", Balancer: "priority", Endpoints: []world.Endpoint{
-		{Name: b.Name, URL: b.URL(), Type: "ollama", Priority: 100, CheckInterval: I, CheckTimeout: 150 * time.Millisecond},
+		{Name: b.Name, URL: b.URL(), Type: "ollama", Priority: 100, CheckInterval: I, CheckTimeout: checkTimeout},
 	}})
 	if err != nil {
 		run.Inconclusive("world failed to start: " + err.Error())
@@ -367,6 +372,7 @@ func oneHistory(run *rep.Run, rng *rand.Rand, h, nsteps int) {
 			}
 		}
 		// drive
+		driveStart := time.Now()
 		cctx, cancel := context.WithTimeout(ctx, 15*time.Second)
 		if st.Mode == "forced" {
 			w.Health().RunHealthCheck(cctx, false)
@@ -374,9 +380,17 @@ func oneHistory(run *rep.Run, rng *rand.Rand, h, nsteps int) {
 			w.Health().VerifTick(cctx)
 		}
 		cancel()
+		droveFor := time.Since(driveStart)
 		after := simNow()
 		hits := b.HealthHits.Load() - hits0
 		ep := w.EndpointByName(b.Name)
+		if due && expectProbe && (st.Out == oOK || st.Out == oSlowOK || st.Out == o4xx || st.Out == o5xx) && string(ep.Status) == "offline" && droveFor >= checkTimeout {
+			// the backend answered (or would have) at once, yet the check lasted at least
+			// check_timeout: Olla legitimately saw a timeout (= offline). The reference cannot
+			// know what Olla saw, so the history ends here.
+			run.Inconclusive("probe of an answering backend ran into check_timeout (overloaded machine); history ended")
+			break
+		}
 		wit := map[string]any{"interval": I.String(), "trace": trace, "expect": expectOutcome, "observed_status": string(ep.Status), "health_hits": hits}
 
 		if !due {
